@@ -18,8 +18,8 @@ PROP = {
             ["bbr-real-quic"], race=False, timeout_quick=900, timeout_thorough=5400),
     ],
     "min_events": 100000,
-    "rule": ("traces: PRNG traces stratified over 10 kinds x 3 profiles (conservative/standard/aggressive): capacity "
-             "0.3..1000 Mbit/s, propagation RTT 5..500 ms, tail-drop queue 0.1..4 BDP, random loss 0..10 %, burst loss, "
+    "rule": ("traces: PRNG traces stratified over 11 kinds x 3 profiles (conservative/standard/aggressive): capacity "
+             "0.3..1000 Mbit/s, propagation RTT 5..500 ms (plus a long-RTT class: 1.5..5 s at 0.3..8 Mbit/s, RTT known from the handshake), tail-drop queue 0.1..4 BDP, random loss 0..10 %, burst loss, "
              "blackouts (PTO probes that silently take the oldest packet out of flight, skipped packet number), ACK every "
              "1/2/4/10 packets with delayed-ACK timer, ACK aggregation 1..80 ms, ACK loss/jitter, data reordering, "
              "application-limited bursts and bulk/idle phases, packet-number gaps of 1..3 every >=8 packets, runs of <=19 "
@@ -29,18 +29,20 @@ PROP = {
              "(3) and time (9/8 RTT) threshold, event lists ascending and never both empty, ACK events >=10 us apart. "
              "progress: loss-free fixed-capacity links x 3 profiles, queue >= BDP, 20 virtual seconds, second-half goodput "
              "vs capacity and quiescence-with-data (deadlock) check; runs with a queue drop are excluded and counted. "
-             "real-quic: real quic-go server->client bulk transfers (3 profiles x 3 links, plus lossy/reordering/shallow-"
+             "real-quic: real quic-go server->client bulk transfers (3 profiles x (3 links + one 2.2 s-RTT link), plus lossy/reordering/shallow-"
              "queue routers in thorough) with the monitor installed by SetCongestionControl after Accept. After every "
              "callback: no panic, 4*MTU <= cwnd <= maxWindow*MTU, pacer bandwidth >= 65536 B/s, sampler queue keeps nothing "
              "older than min(lowest in flight, largest acked - 8), slots <= 24*(in flight+1)+64, queue entry of an "
-             "in-flight packet is the one stored for it. Non-trivial = trace reached PROBE_BW with >= 50 congestion events "
+             "in-flight packet is the one stored for it; pacing gate: HasPacingBudget=false => TimeUntilSend() non-zero and strictly "
+             "after now, and at an announced deadline with nothing in between HasPacingBudget is true; all outputs are also "
+             "checked at installation, before the first packet. Non-trivial = trace reached PROBE_BW with >= 50 congestion events "
              "(traces), asserted loss-free run (progress), completed transfer with >= 500 monitored callbacks (real-quic); "
              "distinct = distinct parameter set."),
     "assumptions": [
         "QUIC-consistent = what quic-go's sentPacketHandler can emit for the application-data packet number space after "
         "the handshake (BBR is installed after the handshake by Hysteria); the structural predicate encoding this is "
         "asserted on every simulator trace and on the call sequences recorded from real quic-go",
-        "simulator parameter ranges: ACK events >= 10 us apart, capacity <= 1 Gbit/s, RTT <= 500 ms (rtt x bandwidth inside 63 bits)",
+        "simulator parameter ranges: ACK events >= 10 us apart, capacity <= 1 Gbit/s, RTT <= 500 ms, or RTT <= 5 s at <= 8 Mbit/s (rtt x bandwidth inside 63 bits)",
         "QUIC has an RTT measurement (from the handshake) before the controller is installed",
         "'not far below capacity' is the calibrated threshold 50 % of capacity over the second half of 20 virtual seconds "
         "(measured 93..99 % on the unchanged tree), not a theorem",
